@@ -1528,6 +1528,12 @@ int ov_pcm_seek_page(OggVorbis_File *vf,ogg_int64_t pos){
         if(result==OV_EREAD) goto seek_error;
         if(result<0){
           /* there is no next page! */
+
+          /* ...and og no longer describes one: the failed look-ahead
+             has read new data into the sync buffer (and may have
+             moved it), which the page held earlier points into */
+          got_page=0;
+
           if(bisect<=begin+1)
               /* No bisection left to perform.  We've either found the
                  best candidate already or failed. Exit loop. */
